@@ -91,11 +91,97 @@ class C08(EngineProp):
     rule = EngineProp.rule if hasattr(EngineProp, 'rule') else ''
     assumptions = ['the peer is protocol-legal and the application obeys reactive-streams']
 
+    def cases(self, rng, tier):
+        out = super().cases(rng, tier)
+        # lease-gated requests: other frames of the stream must not overtake the request held back by the lease
+        for _ in range(40 if tier == 'quick' else 1000):
+            out.append({'role': 'client', 'profile': 'lease', 'kind': 'lease', 'kinds': [rng.choice(['stream', 'channel', 'rr']) for _ in range(rng.randint(1, 3))],
+                        'acts': [rng.choice(['request_n', 'cancel', 'none']) for _ in range(3)], 'lease_first': rng.random() < 0.3})
+        return out
+
+    def run_impl(self, case):
+        if case.get('kind') == 'lease':
+            from harness import detloop
+            return detloop.run(self._lease, case)
+        return super().run_impl(case)
+
+    async def _lease(self, loop, case):
+        from harness import clientrun
+        from harness.engine import frame_token
+        from rsocket.payload import Payload
+        from rsocket import frame as F
+        R = clientrun.ClientRun(loop, n_transports=1, ka_ms=10_000_000, life_ms=100_000_000, honor_lease=True)
+        c = R.build()
+        await c.connect()
+        await loop.settle()
+        t = R.transports[0]
+
+        def lease():
+            fr = F.LeaseFrame()
+            fr.number_of_requests, fr.time_to_live = 10, 100000
+            t.deliver(fr.serialize())
+
+        class S:
+            def on_subscribe(self, s): pass
+            def on_next(self, v, is_complete=False): pass
+            def on_complete(self): pass
+            def on_error(self, e): pass
+        if case['lease_first']:
+            lease()
+            await loop.settle()
+        objs = []
+        for k in case['kinds']:
+            if k == 'stream':
+                r = c.request_stream(Payload(b's'))
+                r.subscribe(S())
+            elif k == 'channel':
+                r = c.request_channel(Payload(b'c'))
+                r.subscribe(S())
+            else:
+                r = c.request_response(Payload(b'r'))
+            objs.append((k, r))
+        await loop.settle()
+        for (k, r), a in zip(objs, case['acts']):
+            if a == 'request_n' and k != 'rr':
+                r.request(5)
+            elif a == 'cancel':
+                r.cancel()
+            await loop.settle()
+        if not case['lease_first']:
+            lease()
+            await loop.settle()
+        toks = [frame_token(e[2]) for e in t.sent if not e[1].startswith('SETUP')]
+        try:
+            await c.close()
+        except Exception:
+            pass
+        return {'steps': [['LEASE-SCENARIO', toks]], 'final': {'table': [], 'cache': []}, 'script': [], 'extra': None, 'kinds': [], 'sids': []}
+
+    def model_lines(self, case, obs):
+        if case.get('kind') == 'lease':
+            return []
+        return super().model_lines(case, obs)
+
+    def compare(self, case, obs, answers):
+        if case.get('kind') == 'lease':
+            return None
+        return super().compare(case, obs, answers)
+
+    def shrink_candidates(self, case):
+        if case.get('kind') == 'lease':
+            for i in range(len(case['kinds'])):
+                if len(case['kinds']) > 1:
+                    yield dict(case, kinds=case['kinds'][:i] + case['kinds'][i + 1:], acts=case['acts'][:i] + case['acts'][i + 1:] + ['none'])
+            return
+        yield from super().shrink_candidates(case)
+
     def oracle(self, case, obs):
         parity = 0 if case['role'] == 'server' else 1
         seen = set()
         fails = []
         for sig, what in monitor(obs, parity):
+            if case.get('kind') == 'lease' and not case['lease_first'] and sig.startswith('frame-on-unopened-stream:'):
+                sig = 'lease-held-request-overtaken:' + sig.split(':')[1]
             if sig not in seen:
                 seen.add(sig)
                 fails.append({'signature': sig, 'what': what})
